@@ -10,6 +10,10 @@ C12  Symbol tables behave as scoped, case-insensitive mappings.
  R2  copy-in / copy-out: SymbolTable stores and returns clones only.
  R3  scope walk: the parent table is consulted only when the local look-up
      misses (innermost declaration wins).
+ R4  optional-table tests are identity tests: a ``SymbolTable`` is a ``dict`` and
+     therefore *falsy when empty*; testing ``self.parent`` (or a local bound to
+     it) for truth instead of ``is not None`` treats an enclosing scope that
+     declares nothing (yet) as absent and cuts the scope chain there.
 Not decided: weak-reference lifetime of parents, re-parenting histories.
 """
 import ast
@@ -235,6 +239,48 @@ def run(ctx):
     (ctx.judge('R3', 'formatter selection') if ok else
      ctx.violation('R3', 'SymbolTable.__new__:formatter', nw.where, 'formatter selection by case_sensitive altered'))
 
+    # ---- R4
+    ctx.rule('R4', 'in SymbolTable no truthiness test is applied to self.parent / a local bound to it (must be `is None` / '
+                   '`is not None`): an empty parent table is falsy')
+    ntests = 0
+    for mem in ST.members.values():
+        if mem.kind != 'func':
+            continue
+        fn = mem.node
+        aliases = {'self.parent'}
+        for n in ast.walk(fn):
+            if isinstance(n, ast.Assign) and isinstance(n.targets[0], ast.Name) and 'self.parent' in ast.unparse(n.value) \
+                    and not any(isinstance(x, ast.Call) for x in ast.walk(n.value)):
+                aliases.add(n.targets[0].id)
+        for n in ast.walk(fn):
+            tests = []
+            if isinstance(n, (ast.If, ast.While, ast.IfExp)):
+                tests.append(n.test)
+            elif isinstance(n, ast.Assert):
+                tests.append(n.test)
+            for t in tests:
+                operands = []
+
+                def flat(x):
+                    if isinstance(x, ast.BoolOp):
+                        for v in x.values:
+                            flat(v)
+                    elif isinstance(x, ast.UnaryOp) and isinstance(x.op, ast.Not):
+                        flat(x.operand)
+                    else:
+                        operands.append(x)
+                flat(t)
+                for o in operands:
+                    if 'parent' in ast.unparse(o):
+                        ntests += 1
+                    if ast.unparse(o) in aliases:
+                        ctx.violation('R4', f'SymbolTable.{mem.name}:truthiness', f'{ST.module.relpath}:{o.lineno}',
+                                      f'`{ast.unparse(t)}` tests `{ast.unparse(o)}` for truth: a parent SymbolTable that is still empty '
+                                      f'is falsy, so the enclosing scope is dropped / not searched')
+                    elif 'parent' in ast.unparse(o):
+                        ctx.judge('R4', f'SymbolTable.{mem.name}:{ast.unparse(o)}')
+    ctx.floor('R4', 'tests mentioning parent', ntests, 2)
+
 
 def _calls_with_guards(fnode):
     out = []
@@ -270,6 +316,8 @@ MUTANTS = [
            "        if recursive and self.parent is not None:", expect=('R3', '_lookup_formatted_name:guard')),
     Mutant('st-return-stored', S, "        return value.clone() if value is not None else None\n",
            "        return value\n", expect=('R2', '_lookup_formatted_name:clone-out')),
+    Mutant('parent-truthiness', S, "        if value is None and recursive and self.parent is not None:",
+           "        if value is None and recursive and self.parent:", expect=('R4', '_lookup_formatted_name:truthiness')),
     Mutant('repair-delitem', U,
            "    def __contains__(self, key):\n        key = key.lower() if isinstance(key, str) else key\n        return super().__contains__(key)\n\n\nclass CaseInsensitiveDefaultDict",
            "    def __contains__(self, key):\n        key = key.lower() if isinstance(key, str) else key\n        return super().__contains__(key)\n\n    def __delitem__(self, key):\n        key = key.lower() if isinstance(key, str) else key\n        super().__delitem__(key)\n\n\nclass CaseInsensitiveDefaultDict",
